@@ -61,8 +61,8 @@ type Obligation struct {
 
 type Enc struct {
 	curCall       *ssa.CallCommon // the call being translated (callWith)
-	curCallee     *ssa.Function // static callee of the call being translated by defaultCall
-	loopFreshOnly []string      // set by loopModSet: components the loop writes only through memory allocated by the function itself
+	curCallee     *ssa.Function   // static callee of the call being translated by defaultCall
+	loopFreshOnly []string        // set by loopModSet: components the loop writes only through memory allocated by the function itself
 	w             *World
 	sc            *Script
 	sorts         *SortTable
